@@ -18,6 +18,8 @@ def _native(f, *a, **k):
 
 @model(np.asarray, np.asanyarray)
 def m_asarray(interp, a, dtype=None, **kw):
+    if hasattr(a, "_pyvc_asarray"):
+        return a._pyvc_asarray(dtype)
     if isinstance(a, SArr):
         if dtype is not None and np.dtype(dtype) != a.dtype:
             return a.astype(dtype)
@@ -323,9 +325,31 @@ def m_append(interp, arr, values, axis=None):
 
 @model(np.stack)
 def m_stack(interp, arrays, axis=0, **k):
-    if contains_sym(arrays):
-        raise Unsupported("np.stack of symbolic arrays")
-    return _native(np.stack, arrays, axis=axis, **k)
+    if not contains_sym(arrays):
+        return _native(np.stack, arrays, axis=axis, **k)
+    arrs = interp.iterate(arrays)
+    if k or not arrs or not all(isinstance(a, SArr) for a in arrs):
+        raise Unsupported("np.stack form")
+    nd = arrs[0].ndim
+    for a in arrs[1:]:
+        if a.ndim != nd or not all(interp.truth(x == y) for x, y in zip(a.shape, arrs[0].shape)):
+            raise RaiseSig(ValueError("all input arrays must have the same shape"))
+    ax = axis % (nd + 1)
+    arrs = [a.frozen() for a in arrs]
+    ctx().trust("np.stack: result[..., k, ...] == arrays[k][...] along the new axis")
+    shape = list(arrs[0].shape)
+    shape.insert(ax, len(arrs))
+
+    def fn(*idx):
+        sel = idx[ax]
+        rest = idx[:ax] + idx[ax + 1:]
+        if isinstance(sel, int):
+            return arrs[sel].elem(*rest)
+        r = arrs[-1].elem(*rest)
+        for q in range(len(arrs) - 2, -1, -1):
+            r = ite(sel == q, arrs[q].elem(*rest), r)
+        return r
+    return SArr.from_fn(fn, shape, np.result_type(*[a.dtype for a in arrs]))
 
 
 @model(np.can_cast)
